@@ -18,7 +18,17 @@ MUST_FORWARD_STATUS = ('masa_init_param', 'masa_sanity_check', 'masa_get_array')
 
 def c_signatures():
     """parameter kinds of every extern "C" definition, read from the source text (harness set-up only)"""
-    txt = open(os.path.join(build.REPO, 'src', 'cmasa.cpp')).read()
+    src_ = os.path.join(build.REPO, 'src', 'cmasa.cpp')
+    txt = open(src_).read()
+    # the definitions are read from the PREPROCESSED unit, so that wrappers stamped out by macros are seen as what they expand to
+    try:
+        import subprocess
+        pp = subprocess.run(['clang++-14', '-E', '-P', '-w', '-std=c++11', '-I', os.path.join(build.VERIF, 'stubs'), '-I', build.REPO, '-I', os.path.join(build.REPO, 'src'), src_],
+                            stdout=subprocess.PIPE, stderr=subprocess.PIPE, universal_newlines=True, timeout=120)
+        if pp.returncode == 0 and 'extern' in pp.stdout:
+            txt = pp.stdout
+    except Exception:
+        pass
     sigs = {}
     for m in re.finditer(r'extern\s+"C"\s+([\w\s\*]+?)\s+(\w+)\s*\(([^)]*(?:\([^)]*\)[^)]*)*)\)\s*\{', txt):
         ret, name, params = m.group(1).strip(), m.group(2), m.group(3)
